@@ -53,6 +53,9 @@ def curated_lists():
     L.append([szt(), P(VARYING, TTRKC, 8, 8), P(PLAIN, TUINT, 4, 4)])
     L.append([P(FIXED, TTRKC, 12, 4), P(PLAIN, TTRKC, 4, 4)])
     L.append([P(PLAIN, TTRKC, 4, 4), P(PLAIN, TBLOB, 4, 4), P(FIXED, TTRK, 8, 8)])
+    # trivial for one of the two assignment operators only (copy / move run tables differ)
+    L.append([P(PLAIN, TUINT, 4, 4), P(FIXED, TTRKMA, 4, 4), P(PLAIN, TTRKCA, 2)])
+    L.append([szt(), P(VARYING, TBLOB, 3), P(PLAIN, TTRKMA, 8, 8), P(PLAIN, TTRKCA, 4, 4)])
     out, seen = [], set()
     for l in L:
         if wf(l) and list_key_(l) not in seen:
